@@ -343,9 +343,9 @@ PROFILES = {
                 weights=dict(subscribe=8, unsubscribe=1, publish=10, disconnect=1, connect=2, foreign_unsub=2)),
     "C07": dict(versions=[5, 4, 3], shared=0.1, qos=[0, 1, 2], sys_topics=0.15, bad_filters=0.15, acl=3, p_single_filter=0.5, p_rel=0.6,
                 weights=dict(subscribe=5, unsubscribe=3, publish=9, disconnect=1, connect=1, dup_publish=3)),
-    "C17": dict(versions=[5, 5, 4], shared=0.1, qos=[0, 1, 2], retain=0.4, sys_topics=0.1, acl=6, wills=0.5, will_delay=[0, 0, 20], sei=[0, 30, 300],
-                obscure=[False, False, True], ticks=["wills", "wills", "clients"], dts=[0, 40, 400],
-                weights=dict(subscribe=6, unsubscribe=1, publish=8, disconnect=3, connect=3, tick=2)),
+    "C17": dict(versions=[5, 5, 4], shared=0.1, qos=[0, 1, 2], retain=0.4, sys_topics=0.1, acl=6, wills=0.7, will_delay=[0, 20, 20], sei=[0, 30, 300],
+                obscure=[False, False, True], ticks=["wills", "wills", "clients"], dts=[40, 40, 400],
+                weights=dict(subscribe=6, unsubscribe=1, publish=8, disconnect=4, connect=4, tick=4)),
 }
 
 
@@ -477,8 +477,8 @@ def session_check(ctx):
 MIXED = {
     # property: (generator, profile, config knobs)
     "C23": ("routing", dict(versions=[5, 4, 3], shared=0.1, nolocal=0.1, props=0.3, subid=0.3, qos=[0, 1, 2], retain=0.3, sys_topics=0.1, bad_filters=0.15,
-                            acl=3, wills=0.4, mps=[0, 0, 40, 60], rpi=[-1, 0, 1], pad=0.3, p_clean=0.4, ack=True, p_ack=0.6, sei=[300, 300, 0],
-                            weights=dict(subscribe=5, unsubscribe=2, publish=9, disconnect=2, connect=4, tick=1)), dict(obscure=[False, True])),
+                            acl=3, wills=0.4, mps=[0, 40, 60], rpi=[-1, 0, 1], pad=0.3, p_clean=0.4, ack=True, p_ack=0.6, sei=[300, 300, 0],
+                            weights=dict(subscribe=5, unsubscribe=2, publish=9, disconnect=2, connect=4, tick=1, size_sweep=0.4)), dict(obscure=[False, True])),
     "C24": ("routing", dict(versions=[5, 5, 4], tam=[0, 1, 2, 2], rm=[0, 0, 1], mps=[0, 0, 0, 50], pad=0.2, pads=[60], qos=[0, 1, 1], in_alias=0.5, alias_max=2,
                             filters=[["a"], ["b"], ["a", "b"], ["#"], ["+"]], topics=[["a"], ["b"], ["a", "b"]], p_clean=0.3, sei=[300],
                             weights=dict(subscribe=5, unsubscribe=1, publish=12, disconnect=1, connect=3)), dict(topic_alias_max=[2, 2, 0], max_pending=[8192, 8192, 1])),
